@@ -117,7 +117,16 @@ package syncer
 // transaction into the shadow DBIs (content-level claim: C11; assumed here).
 //@ func (s *Syncer) mainToShadow
 //@   trusted
-//@   modifies ghost_uncap, ghost_dirty
+//@   modifies ghost_uncap, ghost_dirty, ghost_nput, ghost_ndel
+//@   loop 0 invariant dirty_only_set: ghost_dirty == old(ghost_dirty) || ghost_dirty == 1
+//@   after_call lmdbenv.ReadDBINames#0 ghost loc_pending := 0
+//@   after_call syncer.(*Syncer).readDBI#0 ghost loc_pending := 1
+//@   after_call strategy.IterUpdate#0 ghost loc_pending := 0
+//@   loop 0 invariant every_dbi_captured: ghost_loc_pending == 0
+//@   at_call syncer.(*Syncer).readDBI#0 assert raw_application_dbi: !hasPrefix(arg2, "_sync") && arg4
+//@   at_call syncer.NewNativeIterator#0 assert stamps_detection_time: arg3 == tsNano && uint64(arg4) == ghost_curTxn && arg0 == snapshot.CurrentFormatVersion
+//@   at_call lmdb.(*Txn).OpenDBI#1 assert shadow_target: hasPrefix(arg1, "_sync_shadow_") && arg2 & 262144 != 0 && arg2 &^ (262144 | 8) == 0
+//@   ensures all_captured: r0 == nil ==> ghost_loc_pending == 0
 //@   ensures captured: r0 == nil ==> ghost_uncap == 18446744073709551615
 //@   ensures dirty_only_set: ghost_dirty == old(ghost_dirty) || ghost_dirty == 1
 
@@ -126,7 +135,17 @@ package syncer
 //@ func (s *Syncer) shadowToMain
 //@   trusted
 //@   requires captured: ghost_uncap > ghost_curTxn - 1
-//@   modifies ghost_dirty
+//@   modifies ghost_dirty, ghost_nput, ghost_ndel
+//@   loop 0 invariant dirty_only_set: ghost_dirty == old(ghost_dirty) || ghost_dirty == 1
+//@   after_call lmdbenv.ReadDBINames#0 ghost loc_pending := 0
+//@   after_call syncer.(*Syncer).readDBI#0 ghost loc_pending := 1
+//@   after_call strategy.IterUpdate#0 ghost loc_pending := 0
+//@   after_call strategy.EmptyPut#0 ghost loc_pending := 0
+//@   loop 0 invariant every_dbi_projected: ghost_loc_pending == 0
+//@   at_call syncer.(*Syncer).readDBI#0 assert reads_shadow_dbi: hasPrefix(arg2, "_sync_shadow_") && !arg4
+//@   at_call strategy.EmptyPut#0 assert dupsort_rebuilds: isDupSort
+//@   at_call strategy.IterUpdate#0 assert plain_iterates: !isDupSort
+//@   ensures all_projected: r0 == nil ==> ghost_loc_pending == 0
 //@   ensures dirty_only_set: ghost_dirty == old(ghost_dirty) || ghost_dirty == 1
 
 //@ func (s *Syncer) deletedCutoff
@@ -239,3 +258,22 @@ package syncer
 //@   at_call strategy.Update#0 assert validated: ghost_loc_validated == 1
 //@   after_call snapshot.(*DBI).ValidateTransform#0 ghost loc_validated := ite(ret0 == nil, 1, 0)
 //@   at_call syncer.NewNativeIterator#0 assert txn_id: uint64(arg4) == ghost_curTxn && arg3 == 0 && arg0 == snap.FormatVersion && arg1 == snap.CompatVersion
+
+// ---------------------------------------------------------------- shadow mode wiring (C11, C20)
+
+//@ func (s *Syncer) readDBI
+//@   trusted
+//@   pure
+
+//@ func dupSortHackEncode
+//@   trusted
+//@   pure
+//@ func dupSortHackDecode
+//@   trusted
+//@   pure
+
+// Wiring obligations of mainToShadow (its ghost contract above is what callers
+// assume): every application DBI that was read is captured with IterUpdate
+// before the next one is looked at; the capturing iterator stamps the
+// detection time and the id of this transaction; the shadow DBI is created
+// with no flag other than MDB_INTEGERKEY and carries the shadow prefix.
